@@ -15,6 +15,9 @@ import shutil
 import hashlib
 import subprocess
 import concurrent.futures as cf
+import threading
+
+ASM_LOCK = threading.Lock()
 
 TOOLS = os.path.dirname(os.path.abspath(__file__))
 VERIF = os.path.dirname(TOOLS)
@@ -132,25 +135,39 @@ class UnitRun:
 
 def process_unit(unit, rlimit, seed, do_vacuity):
     ur = UnitRun(unit)
-    try:
-        a = asm.assemble(unit)
-        ur.asm = a
-        path = os.path.join(BUILD, unit + '.rs')
-        with open(path, 'w') as f:
-            f.write(a.text)
-        ur.path = path
-        if do_vacuity:
-            av = asm.assemble(unit, vacuity=True)
-            vpath = os.path.join(BUILD, unit + '__vac.rs')
-            with open(vpath, 'w') as f:
-                f.write(av.text)
-            ur.vac_text = av.text
-            ur.vpath = vpath
-    except asm.Drift as e:
-        ur.drift = str(e)
-        return ur
-    except asm.rsitems.LexError as e:
-        ur.drift = 'lexer: ' + str(e)
+    ur.skipped = []
+    ASM_LOCK.acquire()
+    for lenient in (False, True):
+        try:
+            asm.LENIENT[0] = lenient
+            del asm.SKIPPED[:]
+            a = asm.assemble(unit)
+            ur.asm = a
+            ur.skipped = list(asm.SKIPPED)
+            path = os.path.join(BUILD, unit + '.rs')
+            with open(path, 'w') as f:
+                f.write(a.text)
+            ur.path = path
+            if do_vacuity:
+                av = asm.assemble(unit, vacuity=True)
+                vpath = os.path.join(BUILD, unit + '__vac.rs')
+                with open(vpath, 'w') as f:
+                    f.write(av.text)
+                ur.vac_text = av.text
+                ur.vpath = vpath
+            ur.drift = None
+            break
+        except asm.Drift as e:
+            ur.drift = str(e)
+        except asm.rsitems.LexError as e:
+            ur.drift = 'lexer: ' + str(e)
+            break
+        except Exception as e:
+            ur.drift = 'assembler: %r' % (e,)
+        finally:
+            asm.LENIENT[0] = False
+    ASM_LOCK.release()
+    if ur.drift:
         return ur
     with cf.ThreadPoolExecutor(max_workers=2) as ex:
         fm = ex.submit(run_verus, path, rlimit, seed)
@@ -578,6 +595,7 @@ def main(argv):
             'bounded_checks': spec.get('bounded', []),
             'explanation': spec.get('explanation', ''),
             'inconclusive': inconclusive,
+            'drift_hints_skipped': [m for u in units for m in (getattr(runs[u], 'skipped', []) or [])],
             'known_findings_hit': [k['what'] for k, _ in known_hits],
         },
         'assumptions': assumptions + spec.get('assumptions', []),
@@ -592,25 +610,83 @@ def main(argv):
 
     for k, v in known_hits:
         print('KNOWN-FINDING: property=%s %s' % (pid, k['what']))
+    # bounded stand-ins (functions outside the verifier's reach) and, in the thorough tier, a
+    # consistency run of the replay oracle on this tree.  Labelled bounded; never counted as discharged.
+    bounded_found = None
+    bounded_runs = []
+    standins = list(spec.get('bounded', []))
+    if tier == 'thorough' and not standins:
+        standins = [{'oracle': pid, 'what': 'thorough tier: consistency run of the replay oracle (executable postconditions) on this tree', 'budget_s': 60}]
+    if standins and not final_viol:
+        import replay_driver
+        for sdn in standins:
+            b = sdn.get('budget_s', 8) * (4 if tier == 'thorough' else 1)
+            rs0 = replay_driver.search(sdn['oracle'], None, seed, b)
+            bounded_runs.append({'oracle': sdn['oracle'], 'what': sdn.get('what', ''), 'level': 'bounded', 'budget_s': b,
+                                 'cases': rs0.get('cases'), 'found': bool(rs0.get('found')), 'error': rs0.get('error')})
+            if rs0.get('found') and bounded_found is None:
+                bounded_found = rs0
+        evidence['coverage']['bounded_checks'] = bounded_runs
+        with open(os.path.join(EVID, pid + '.json'), 'w') as f:
+            json.dump(evidence, f, indent=1)
+    if bounded_found and not final_viol:
+        rs = bounded_found
+        info = {'property': pid, 'obligation': 'bounded:' + str(rs.get('oracle')), 'function': rs.get('oracle'), 'unit': None,
+                'verifier_message': 'bounded stand-in (replay oracle) found a failing input on the real code', 'verifier_output': '', 'failing_input': rs}
+        path = write_replay(pid, 'bounded_' + str(rs.get('oracle')), info)
+        evidence['violations'] = 1
+        with open(os.path.join(EVID, pid + '.json'), 'w') as f:
+            json.dump(evidence, f, indent=1)
+        print('VIOLATION property=%s replay=%s obligation=%s function=%s' % (pid, path, info['obligation'], rs.get('oracle')))
+        print('  failing input (%s): %s  expected %s  got %s' % (rs.get('oracle'), rs.get('input'), rs.get('expected'), rs.get('got')))
+        return 1
+    drift_notes = []
+    for u in units:
+        for m in getattr(runs[u], 'skipped', []) or []:
+            drift_notes.append('%s: %s' % (u, m))
+    budget = 20 if tier == 'quick' else 120
     if final_viol:
+        # a failed obligation.  Without drift it is reported as it is (with a failing input when the
+        # replay search finds one); when proof hints had to be skipped because the code moved away
+        # from the contract anchors, only a concrete failing input makes it a violation.
+        rs = run_replay_search(pid, final_viol[0], seed, budget)
+        found = bool(rs and rs.get('found'))
+        if drift_notes and not found:
+            for s_ in drift_notes[:5]:
+                print('INCONCLUSIVE property=%s reason=contract drift (hint skipped): %s' % (pid, s_))
+            for v in final_viol:
+                print('INCONCLUSIVE property=%s reason=obligation %s in %s not discharged after drift; replay search found no failing input' % (pid, v['obligation'], v['function']))
+            return 2
         for v in final_viol:
             info = {'property': pid, 'obligation': v['obligation'], 'function': v['function'], 'unit': v['unit'],
-                    'verifier_message': v['message'], 'verifier_output': v['rendered'], 'all_failed_obligations': v.get('all_failed', []), 'failing_input': None}
-            rs = run_replay_search(pid, v, seed, 20 if tier == 'quick' else 120)
-            tail = ' no-failing-input-found'
-            if rs and rs.get('input') is not None:
-                info['failing_input'] = rs
-                tail = ''
-            elif rs:
-                info['replay_search'] = rs
+                    'verifier_message': v['message'], 'verifier_output': v['rendered'], 'all_failed_obligations': v.get('all_failed', []),
+                    'drift': drift_notes, 'failing_input': rs if found else None, 'replay_search': None if found else rs}
             path = write_replay(pid, v['obligation'], info)
+            tail = '' if found else ' no-failing-input-found'
             print('VIOLATION property=%s replay=%s obligation=%s function=%s%s' % (pid, path, v['obligation'], v['function'], tail))
+            if found:
+                print('  failing input (%s): %s  expected %s  got %s' % (rs.get('oracle'), rs.get('input'), rs.get('expected'), rs.get('got')))
         return 1
     if inconclusive:
-        for s in inconclusive:
-            print('INCONCLUSIVE property=%s reason=%s' % (pid, s))
+        # the verifier could not conclude (drift / front end / resource).  A concrete failing input on
+        # the real code is still a violation; otherwise the run stays inconclusive.
+        hard = [s_ for s_ in inconclusive if ': drift:' in s_ or ': frontend:' in s_]
+        if hard:
+            rs = run_replay_search(pid, None, seed, budget)
+            if rs and rs.get('found'):
+                info = {'property': pid, 'obligation': 'replay:' + str(rs.get('oracle')), 'function': rs.get('oracle'), 'unit': None,
+                        'verifier_message': 'verifier inconclusive: ' + '; '.join(hard)[:500], 'verifier_output': '', 'failing_input': rs}
+                path = write_replay(pid, 'replay_' + str(rs.get('oracle')), info)
+                print('VIOLATION property=%s replay=%s obligation=%s function=%s' % (pid, path, info['obligation'], rs.get('oracle')))
+                print('  failing input (%s): %s  expected %s  got %s' % (rs.get('oracle'), rs.get('input'), rs.get('expected'), rs.get('got')))
+                return 1
+        for s_ in inconclusive:
+            print('INCONCLUSIVE property=%s reason=%s' % (pid, s_))
         return 2
-    print('OK property=%s obligations=%d discharged=%d functions=%d wall=%.1fs' % (pid, evidence['coverage']['obligations'], evidence['coverage']['discharged'], len(fn_rows), time.time() - t0))
+    extra = ''
+    if drift_notes:
+        extra = ' (hints skipped after drift: %d; contracts still discharged)' % len(drift_notes)
+    print('OK property=%s obligations=%d discharged=%d functions=%d wall=%.1fs%s' % (pid, evidence['coverage']['obligations'], evidence['coverage']['discharged'], len(fn_rows), time.time() - t0, extra))
     return 0
 
 
